@@ -1514,6 +1514,85 @@ def exhaustion_guard(ctx, rid):
                 ctx.holds(rid, fn, "early exhaustion is padded while recorded length remains (%s)" % norm(st.test), st.test)
             else:
                 ctx.undecided(rid, fn, "guard of the early-exhaustion padding not understood: %s" % norm(st.test), st.test)
+    _standin_length_before_bookkeeping(ctx, rid, fn)
+
+
+def _standin_length_before_bookkeeping(ctx, rid, fn):
+    """The stand-in that pads a file that ended early is told how many bytes are still owed.  advance() books one piece and
+    lowers that figure; the stand-in produces the hash of THIS piece as well, so the figure it is given must be read before
+    advance() runs in the same call (directly, or through a local taken before)."""
+    adv = fn.cls.methods.get("advance") if fn.cls is not None else None
+    if adv is None:
+        return
+    lowered = {norm(n.target) for n in own_nodes(adv.node) if isinstance(n, ast.AugAssign) and isinstance(n.op, ast.Sub) and isinstance(n.target, ast.Attribute)
+               and isinstance(n.target.value, ast.Name) and n.target.value.id == adv.self_name}
+    lowered = {t.replace(adv.self_name + ".", fn.self_name + ".", 1) for t in lowered}
+    g = C.cfg_of(fn)
+    adv_calls = [C.stmt_node(ctx, fn, n) for n in own_nodes(fn.node) if isinstance(n, ast.Call) and adv in C.targets_of(ctx, fn, n)]
+    adv_calls = [a for a in adv_calls if a is not None]
+    if not lowered or not adv_calls:
+        return
+    rdf = ReachDefs(fn, g)
+    # advance() itself does not signal exhaustion (no raise, no next() inside): the handler is not entered FROM it, so the
+    # exceptional edge out of its call is left out; whatever follows it in the protected block can still lead there
+    adv_raises = any(isinstance(n, ast.Raise) or (isinstance(n, ast.Call) and norm(n.func) == "next") for n in own_nodes(adv.node))
+
+    def signals(f_, depth=0):
+        for n in own_nodes(f_.node):
+            if isinstance(n, ast.Raise) or (isinstance(n, ast.Call) and norm(n.func) == "next" and len(n.args) == 1):
+                return True
+            if isinstance(n, ast.Call) and depth < 2 and any(signals(t, depth + 1) for t in C.targets_of(ctx, f_, n) if t is not f_):
+                return True
+        return False
+
+    def can_stop(node):
+        """the statement at this node can raise StopIteration: next(it) without default, a raise, a package callee that can"""
+        a = getattr(node, "ast", None)
+        if a is None:
+            return True
+        for n in ast.walk(a):
+            if isinstance(n, ast.Raise) or (isinstance(n, ast.Call) and norm(n.func) == "next" and len(n.args) == 1):
+                return True
+            if isinstance(n, ast.Call) and norm(n.func) != "next":
+                tg = C.targets_of(ctx, fn, n)
+                if any(signals(t) for t in tg):
+                    return True
+                if not tg and not isinstance(n.func, ast.Attribute) and not C.ext_name(ctx, n, fn):
+                    return True         # an unresolved plain call: unknown
+        return False
+
+    def after(ac):
+        seen, work = set(), [s_ for s_, l_ in ac.succ if adv_raises or l_ != "exc"]
+        while work:
+            n_ = work.pop()
+            if n_ in seen:
+                continue
+            seen.add(n_)
+            stop_ok = can_stop(n_)
+            work.extend(s_ for s_, l_ in n_.succ if l_ != "exc" or stop_ok)
+        return seen
+    after_adv = {ac: after(ac) for ac in adv_calls}
+    for st in own_nodes(fn.node):
+        if not (isinstance(st, ast.Assign) and any(isinstance(t, ast.Attribute) and t.attr == "hasher" for t in st.targets) and isinstance(st.value, ast.Call)):
+            continue
+        sn = C.stmt_node(ctx, fn, st)
+        if sn is None:
+            continue
+        for a in list(st.value.args) + [k.value for k in st.value.keywords]:
+            reads = []      # (cfg node where a lowered figure is read, text)
+            if any(norm(x) in lowered for x in ast.walk(a) if isinstance(x, ast.Attribute)):
+                reads.append((sn, norm(a)))
+            for x in ast.walk(a):
+                if isinstance(x, ast.Name) and x.id != fn.self_name:
+                    for d in rdf.reaching(x.id, sn):
+                        v = getattr(d, "value", None)
+                        if v is not None and any(norm(y) in lowered for y in ast.walk(v) if isinstance(y, ast.Attribute)):
+                            reads.append((d.node, "%s = %s" % (x.id, norm(v))))
+            for rn, txt in reads:
+                late = any(rn in after_adv[ac] for ac in adv_calls) if rn is not None else False
+                ctx.decide(rid, fn, not late, "the stand-in is told what is still owed (`%s`) before advance() books the piece" % txt[:60],
+                           "the stand-in is given `%s` AFTER advance() has booked this piece and lowered it: it pads one piece less than the file still owes - when exactly one piece is missing "
+                           "(a file cut at the boundary before its last piece) nothing is compared for it and the check reports the file complete" % txt[:60], st)
 
 
 def classify_piece_total(ctx, fn, e, consts, depth=0):
@@ -1571,6 +1650,22 @@ def existing_files_are_read(ctx, rid):
                 continue
             n += 1
             extra = [a for a in atoms if a not in ex]
+
+            def holds_bytes(a):
+                """`the file holds at least one byte`: getsize(p) > 0 / >= 1 / != 0 / getsize(p) itself, a stat size likewise"""
+                def size(e):
+                    return (isinstance(e, ast.Call) and (C.is_ext_call(ctx, e, fn, ("os.path.getsize",)) or norm(e.func).endswith("getsize"))) or (isinstance(e, ast.Attribute) and e.attr == "st_size")
+                if size(a):
+                    return True
+                if isinstance(a, ast.Compare) and len(a.ops) == 1 and size(a.left) and isinstance(a.comparators[0], ast.Constant):
+                    k, op = a.comparators[0].value, type(a.ops[0])
+                    return (k == 0 and op in (ast.Gt, ast.NotEq)) or (k == 1 and op is ast.GtE)
+                return False
+            if extra and all(holds_bytes(a) for a in extra) and isinstance(st.test, ast.BoolOp) and isinstance(st.test.op, ast.And) and all(v in atoms for v in st.test.values):
+                # exists and holds at least one byte: the stand-in replaces absent files and EMPTY ones, which have no piece
+                # that could verify - every file with content is still read
+                ctx.holds(rid, fn, "reader vs zero stand-in is chosen by existence; an existing file goes to the stand-in only when it is empty (`%s`), when there is nothing to read" % norm(st.test)[:80], st.test)
+                continue
             ctx.decide(rid, fn, not extra, "reader vs zero stand-in is chosen by existence alone",
                        "a file that exists is replaced by the all-zero stand-in when `%s` fails: the intact pieces of a truncated or grown file are reported as failed, so the percentage is below the true share" % " / ".join(norm(a) for a in extra), st.test)
     ctx.floor("reader selection tests", 1, n)
